@@ -430,6 +430,17 @@ pub fn main() -> i32 {
     }
     "fault" => drive(&crate::engines::FaultEngine, &args),
     "corrupt" => drive(&crate::engines::CorruptEngine, &args),
+    "sched" => {
+      let reader_heavy = match args.property.as_str() {
+        "C05" => false,
+        "C06" => true,
+        p => {
+          eprintln!("harness error: mode sched does not decide {}", p);
+          return 2;
+        }
+      };
+      drive(&crate::engines::SchedEngine { reader_heavy }, &args)
+    }
     other => {
       eprintln!("harness error: unknown mode `{}`", other);
       2
